@@ -203,6 +203,21 @@ def sortedness(F, f, du, cfg, pos_bb, slice_op, depth=0):
             so = {repr(o) for o in mir.provenance(f, du, t["args"][0], transparent_extra=("std::ops::DerefMut::deref_mut",))}
             if so & roots:
                 good, what = sort_order_ok(t, F)
+                if good is False and c.split("::")[-1] in ("sort", "sort_unstable"):
+                    # the element type is a type parameter of this function (`SortedKeys::<K>::gather`): the order is the one
+                    # of the type each caller instantiates it with
+                    ty = (t.get("gargs") or ["?"])[0]
+                    if ty in (f.get("generics") or []):
+                        from ..common import callers_index
+                        insts = []
+                        for g, ct in callers_index(F).get(f["path"], []):
+                            sub = mir._generic_subst(f, ct)
+                            if ty in sub:
+                                insts.append(sub[ty])
+                        if insts and all(ledger_order(x) for x in insts):
+                            return True, "a dominating `%s` on the same vector (natural order of %s, the types `%s` is instantiated with)" % (c.split("::")[-1], " / ".join("`%s`" % x for x in sorted(set(insts))), ty)
+                        if insts:
+                            what = "natural order of `%s` (instantiated with %s)" % (ty, ", ".join(sorted(set(insts))))
                 if good is False and what.startswith("a comparator"):
                     return False, "sorted by %s" % what
                 if good is None:
